@@ -867,6 +867,9 @@ func (c *concRun) judge(sys CSys, o *cObs) *common.Violation {
 	res := c.ctx.Res
 	c.idx++
 	c.schedules++
+	if c.schedules == 200 || c.schedules == 5000 { // a couple of complete executions for the evidence
+		res.Sample(map[string]interface{}{"system": sys, "schedule": intsText(o.Sched), "observation": o.line()})
+	}
 	canon := sys.specText() + " | " + intsText(o.Sched)
 	nt, tags := concNontrivial(o)
 	res.Count(canon, nt)
